@@ -370,13 +370,14 @@ Section CoinProofs.
   Theorem draw_integers_spec c n dom nonce : 0 <= n ->
     let s' := nonce_seed c nonce in
     draw_integers c n dom nonce =
-      if negb (is_pow2 dom) || (dom <=? n) then (c, Panic)
+      if negb (is_pow2 dom) then (c, Panic)
+      else if dom <=? n then (c, Err)
       else if n =? 0 then (mkCoin s' 1000, Ok (ints_vals s' 0 (dom - 1) 1000))
       else if n <=? 1000 then (mkCoin s' n, Ok (ints_vals s' 0 (dom - 1) (Z.to_nat n)))
       else (mkCoin s' 1000, Err).
   Proof.
     intros Hn. cbv zeta. unfold coin_draw_integers, nonce_seed.
-    destruct (is_pow2 dom); cbn [negb orb]; [|reflexivity].
+    destruct (is_pow2 dom); cbn [negb]; [|reflexivity].
     destruct (n <? dom) eqn:Elt.
     2:{ apply Z.ltb_ge in Elt. apply Z.leb_le in Elt. rewrite Elt. reflexivity. }
     apply Z.ltb_lt in Elt. replace (dom <=? n) with false by (symmetry; apply Z.leb_gt; lia). cbn [negb].
@@ -417,7 +418,7 @@ Section CoinProofs.
   Proof.
     intros Hp Hn Hlt. apply is_pow2_spec in Hp as Hk. destruct Hk as [k [Hk ->]].
     pose proof (draw_integers_spec c n (2 ^ k) nonce ltac:(lia)) as H. cbv zeta in H.
-    rewrite Hp in H. cbn [negb orb] in H.
+    rewrite Hp in H. cbn [negb] in H.
     replace (2 ^ k <=? n) with false in H by (symmetry; apply Z.leb_gt; lia).
     replace (n =? 0) with false in H by (symmetry; apply Z.eqb_neq; lia).
     replace (n <=? 1000) with true in H by (symmetry; apply Z.leb_le; lia).
@@ -427,27 +428,26 @@ Section CoinProofs.
   Qed.
 
   Theorem draw_integers_panic_iff c n dom nonce : 0 <= n ->
-    (snd (draw_integers c n dom nonce) = Panic <-> ((~ exists k, 0 <= k /\ dom = 2 ^ k) \/ dom <= n)).
+    (snd (draw_integers c n dom nonce) = Panic <-> ~ exists k, 0 <= k /\ dom = 2 ^ k).
   Proof.
     intros Hn. pose proof (draw_integers_spec c n dom nonce Hn) as H. cbv zeta in H. rewrite H. clear H.
-    destruct (is_pow2 dom) eqn:Ep; cbn [negb orb].
-    - apply is_pow2_spec in Ep. destruct (dom <=? n) eqn:El.
-      + apply Z.leb_le in El. cbn. split; auto.
-      + apply Z.leb_gt in El. destruct (n =? 0); [|destruct (n <=? 1000)]; cbn;
-          (split; [discriminate|intros [Hc|Hc]; [contradiction|lia]]).
-    - cbn. split; [intros _|reflexivity]. left. intros Hk. apply is_pow2_spec in Hk. congruence.
+    destruct (is_pow2 dom) eqn:Ep; cbn [negb].
+    - apply is_pow2_spec in Ep.
+      destruct (dom <=? n); [|destruct (n =? 0); [|destruct (n <=? 1000)]]; cbn;
+        (split; [discriminate|intros Hc; contradiction]).
+    - cbn. split; [intros _|reflexivity]. intros Hk. apply is_pow2_spec in Hk. congruence.
   Qed.
 
   Theorem draw_integers_err_iff c n dom nonce : 0 <= n ->
-    (snd (draw_integers c n dom nonce) = Err <-> (is_pow2 dom = true /\ 1000 < n < dom)).
+    (snd (draw_integers c n dom nonce) = Err <-> (is_pow2 dom = true /\ (dom <= n \/ 1000 < n))).
   Proof.
     intros Hn. pose proof (draw_integers_spec c n dom nonce Hn) as H. cbv zeta in H. rewrite H. clear H.
-    destruct (is_pow2 dom) eqn:Ep; cbn [negb orb].
-    - destruct (dom <=? n) eqn:El; [apply Z.leb_le in El; cbn; split; [discriminate|lia]|].
+    destruct (is_pow2 dom) eqn:Ep; cbn [negb].
+    - destruct (dom <=? n) eqn:El; [apply Z.leb_le in El; cbn; split; [intros _; split; [reflexivity|lia]|reflexivity]|].
       apply Z.leb_gt in El. destruct (n =? 0) eqn:E0; [apply Z.eqb_eq in E0; cbn; split; [discriminate|lia]|].
       destruct (n <=? 1000) eqn:E1; cbn.
       + apply Z.leb_le in E1. split; [discriminate|lia].
-      + apply Z.leb_gt in E1. split; auto.
+      + apply Z.leb_gt in E1. split; [intros _; split; [reflexivity|lia]|reflexivity].
     - cbn. split; [discriminate|]. intros [Hc _]. discriminate.
   Qed.
 
@@ -456,7 +456,7 @@ Section CoinProofs.
     exists vals, draw_integers c 0 dom nonce = (mkCoin (nonce_seed c nonce) 1000, Ok vals) /\ length vals = 1000%nat.
   Proof.
     intros Hp. pose proof (draw_integers_spec c 0 dom nonce ltac:(lia)) as H. cbv zeta in H.
-    rewrite Hp in H. cbn [negb orb] in H.
+    rewrite Hp in H. cbn [negb] in H.
     assert (0 < dom) by (unfold is_pow2 in Hp; apply andb_true_iff in Hp; destruct Hp as [Hp _]; apply Z.ltb_lt in Hp; lia).
     replace (dom <=? 0) with false in H by (symmetry; apply Z.leb_gt; lia). cbn [Z.eqb] in H.
     eexists. split; [exact H|]. apply ints_vals_length.
@@ -468,7 +468,7 @@ Section CoinProofs.
     (is_pow2 dom && (n <? dom) = false -> c' = c).
   Proof.
     intros Hn. cbv zeta. rewrite draw_integers_spec by assumption. cbv zeta.
-    destruct (is_pow2 dom); cbn [negb orb andb].
+    destruct (is_pow2 dom); cbn [negb andb].
     - destruct (n <? dom) eqn:E.
       + apply Z.ltb_lt in E. replace (dom <=? n) with false by (symmetry; apply Z.leb_gt; lia).
         split; [intros _|discriminate].
